@@ -44,4 +44,8 @@ example : features2d (fun (s o : Nat) => (s, o)) id 0 [2, 0, 1] [10, 20, 30] (.m
 through the proxies), the flattened analysis keeps its samples, the 3-D analysis delegates with axis 0 / None. -/
 theorem C11_routing : ∀ r ∈ Routing.group, Routing.holds Slots.routes r = true := by decide +kernel
 
+/-- the group object's wiring as far as this property reads it (`Routing.groupObject`, extracted from the source on every run): the stored array, rate, band,
+axis, sample switch, number of jobs and ONE option dictionary built from the stored settings reach the group analysis; every model is built with the group's settings. -/
+theorem C11_group_routing : ∀ r ∈ Routing.groupObject, r.2.1 != "compute_features_3d" → Routing.holdsAll Slots.routes r = true := by decide +kernel
+
 end Bycycle
